@@ -421,6 +421,8 @@ def rule_Q3(ctx) -> None:
         ctx.count(len(paths))
         res = set()
         for p in paths:
+            if p.outcome == "raise" and any(k[0] == "raises" and v_ for k, v_ in p.valuation.items()):
+                continue        # the nested parse rejected the payload and a handler re-raised: no value, nothing to convert
             if p.outcome != "return" or p.value is None:
                 res.add(f"<{p.outcome}>")
                 continue
